@@ -11,11 +11,15 @@ for ln in open(os.path.join(SD, 'confirm.log')):
     m = re.match(r'CONFIRM (\S+) suite=\[\s*Summary \[\s*[\d.]+s\] (.*?)\] demo_with_patch_exit=(\d+) demo_clean_exit=(\d+)', ln)
     if m:
         p = m.group(1)
-        mm = re.search(r'seed_(C\d+)/_seed(2?)/(\d)', p)
-        sid = '%s-%s%s' % (mm.group(1), 'b' if mm.group(2) else '', mm.group(3))
+        m2 = re.search(r'seeded/(C\d+-[bc]?\d+)$', p)
+        if m2:
+            sid = m2.group(1)
+        else:
+            mm = re.search(r'seed_(C\d+)/_seed(2?)/(\d)', p)
+            sid = '%s-%s%s' % (mm.group(1), 'b' if mm.group(2) else '', mm.group(3))
         confirm[sid] = {'suite': m.group(2), 'demo_with_patch_exit': int(m.group(3)), 'demo_clean_exit': int(m.group(4))}
 rows = []
-for sid in sorted(d for d in os.listdir(SD) if re.match(r'C\d+-b?\d+$', d)):
+for sid in sorted(d for d in os.listdir(SD) if re.match(r'C\d+-[bc]?\d+$', d)):
     d = os.path.join(SD, sid)
     try:
         agent = json.load(open(os.path.join(d, 'meta.agent.json')))
